@@ -197,3 +197,41 @@ Theorem C18_unix_closed_errors : forall cancel0 busy closing0 item mx script rsc
   (u_res o' = UClosed -> u_closing o' = true) /\ (u_res o' = UBroken -> u_closing o' = false).
 Proof. exact unix_closed_errors. Qed.
 Print Assumptions C18_unix_closed_errors.
+
+(* same-direction entry points of other tasks while a call is in progress: send(), send_fds() and send_eof() share
+   the send guard, receive() and receive_fds() the receive guard; each is refused and changes no state *)
+Theorem C18_unix_entry_points_refused :
+  (forall rg shut e, e = ESend \/ e = ESendFds \/ e = ESendEof -> intrude true true rg shut e = (UBusy, shut)) /\
+  (forall sg shut e, e = EReceive \/ e = EReceiveFds -> intrude true sg true shut e = (UBusy, shut)).
+Proof. exact unix_entry_points_refused. Qed.
+Print Assumptions C18_unix_entry_points_refused.
+
+Theorem C18_unix_parked_send_untouched : forall cancel0 busy closing0 item script,
+  (forall es w e, In (SBlock es w) script -> In e es -> uses_send_guard true e = true) ->
+  let o := unix_send cancel0 busy closing0 item script in
+  let o' := unix_send cancel0 busy closing0 item (map strip_s script) in
+  u_res o = u_res o' /\ u_handed o = u_handed o' /\ u_calls o = u_calls o' /\ u_waits o = u_waits o' /\
+  u_closing o = u_closing o' /\ u_guard o = u_guard o' /\ u_shut o = false /\
+  Forall (fun r => r = UBusy) (u_intr o).
+Proof. exact unix_parked_send_untouched. Qed.
+Print Assumptions C18_unix_parked_send_untouched.
+
+Theorem C18_unix_parked_recv_untouched : forall cancel0 busy closing0 mx script,
+  (forall es w e, In (KBlock es w) script -> In e es -> uses_recv_guard e = true) ->
+  let o := unix_recv cancel0 busy closing0 mx script in
+  let o' := unix_recv cancel0 busy closing0 mx (map strip_r script) in
+  u_res o = u_res o' /\ u_calls o = u_calls o' /\ u_waits o = u_waits o' /\
+  u_closing o = u_closing o' /\ u_guard o = u_guard o' /\ u_shut o = false /\
+  Forall (fun r => r = UBusy) (u_intr o).
+Proof. exact unix_parked_recv_untouched. Qed.
+Print Assumptions C18_unix_parked_recv_untouched.
+
+(* the variant without the guard around send_eof() (seeded change C18/d) is refuted by a vm_compute witness *)
+Theorem C18_unix_send_eof_unguarded_refuted :
+  exists item script,
+    let o := unix_sendv false false false false item script in
+    u_intr o = [UAccepted] /\ u_shut o = true /\ u_handed o <> item /\ u_res o = UBroken /\
+    let o' := unix_send false false false item script in
+    u_intr o' = [UBusy] /\ u_shut o' = false.
+Proof. exact unix_send_eof_unguarded_refuted. Qed.
+Print Assumptions C18_unix_send_eof_unguarded_refuted.
